@@ -247,6 +247,10 @@ CHECKS["C17"] = {
             {"run": "TestVfC17QuicTarget", "quick": 60, "thorough": 1500, "shards_quick": 1, "shards_thorough": 1, "exclusive": True},
             {"run": "TestVfC17ServerName", "quick": 200, "thorough": 4000, "shards_quick": 2, "shards_thorough": 4},
         ]},
+        {"engine": "E", "proxy": ["plain"], "tests": [
+            {"run": "TestVfC17UpstreamAuth", "quick": 160, "thorough": 4000, "shards_quick": 8, "shards_thorough": 16, "shrinktime": "15s"},
+            {"run": "TestVfC17ClientCert", "quick": 120, "thorough": 3000, "shards_quick": 4, "shards_thorough": 8, "shrinktime": "15s"},
+        ]},
     ],
     "assumptions": ["IPv6 zones are not generated; ports 853/443 on 127.33-35.x.y and ::1 are bound by the harness for the default-port QUIC cases (skipped when busy)"],
 }
@@ -320,6 +324,9 @@ CHECKS["C20"] = {
         ]},
         {"engine": "P", "pkg": "internal/cache", "race": True, "tests": [
             {"run": "TestVfC07MemCacheHammer", "quick": 80, "thorough": 3000, "shards_quick": 4, "shards_thorough": 8, "timeout_quick": 300},
+        ]},
+        {"engine": "P", "pkg": "internal/upstream", "race": True, "tests": [
+            {"run": "TestVfC20TransportHammer", "quick": 64, "thorough": 2400, "shards_quick": 8, "shards_thorough": 16, "shrinktime": "10s"},
         ]},
     ],
     "assumptions": ["build tag verif enables the add-only hook in internal/pool (one call site in ReleaseBuf)"],
